@@ -50,6 +50,25 @@ func genTrimPath(r *RNG) clip.Path64 {
 		}
 		return p
 	}
+	if r.Intn(12) == 0 {
+		// within 2^29: a quadrilateral with a vertex a few units off the line through its far-apart neighbours (the
+		// products compared by the collinearity test exceed 2^54 with every factor below 2^31 and differ by a few units)
+		lim := int64(1) << 29
+		p1 := clip.Point64{X: -lim + r.Range(0, 5), Y: -lim + r.Range(0, 5)}
+		vx := (int64(1) << 27) - r.Range(40, 4000)
+		vy := vx + r.Range(-30, 30)
+		k, m := r.Range(1, 3), r.Range(4, 7)
+		d := r.Range(-4, 4)
+		p2 := clip.Point64{X: p1.X + k*vx, Y: p1.Y + k*vy}
+		p3 := clip.Point64{X: p1.X + m*vx + d, Y: p1.Y + m*vy + d}
+		p4 := clip.Point64{X: p1.X + r.Range(1000, 1<<27), Y: p3.Y - r.Range(0, 1<<20)}
+		p := clip.Path64{p1, p2, p3, p4}
+		if r.Bool() {
+			p = clip.Path64{p3, p2, p1, p4}
+		}
+		k0 := r.Intn(4)
+		return append(append(clip.Path64{}, p[k0:]...), p[:k0]...)
+	}
 	switch r.Intn(6) {
 	case 0: // tiny grid, any shape
 		n := r.Intn(8)
